@@ -49,3 +49,10 @@ package connectutil
 //@   ensures [never-both] !(result.0 != nil && result.1 != nil)
 //@   ensures [no-principal-only-if-none-seen] s != nil && result.0 == nil && result.1 == nil ==> !found
 //@   ensures [envelope-needs-16-byte-nonce] result.0 != nil && haveEnvelope ==> len(nonce) == 16
+
+// Whether a proposal carried an envelope depends on the envelope field alone (not on the declared protocol): a proposal
+// with an envelope is never treated as "no principal".
+//@ func (*SessionPrincipalWire).HasEnvelope
+//@   props C41
+//@   modifies nothing
+//@   ensures [envelope-present-iff-non-empty-field] result == (w != nil && len(w.Envelope) > 0)
